@@ -96,6 +96,8 @@ Record fwd := {
   fw_method : bytes;          (* method image *)
   fw_uri : bytes;             (* request-target as parsed *)
   fw_major : N; fw_minor : N; (* client's HTTP version *)
+  fw_chunked : bool;          (* the client framed the body with Transfer-Encoding: chunked (header.chunked()) *)
+  fw_clen : Z;                (* request->content_length after header compilation *)
   fw_body : bytes;            (* body bytes handed to the body pipe (de-chunked) *)
   fw_cl : list bytes;         (* Content-Length field values sent upstream *)
   fw_te : bool;               (* Transfer-Encoding: chunked sent upstream *)
@@ -149,7 +151,7 @@ Definition process_one (cf : cfg) (buf : bytes) : msg_res :=
             let head := lenN buf - lenN rest in
             let mk body cl te used :=
               {| fw_method := ReqparseModel.f_mimg f; fw_uri := ReqparseModel.f_uri f; fw_major := ma; fw_minor := mi;
-                 fw_body := body; fw_cl := cl; fw_te := te; fw_head := head; fw_used := used |} in
+                 fw_chunked := chunked; fw_clen := clen; fw_body := body; fw_cl := cl; fw_te := te; fw_head := head; fw_used := used |} in
             if chunked then
               (* expectRequestBody(-1); handleChunkedRequestBody on what is in inBuf
               (an empty inBuf gives PRet false: nothing parsed yet, the head is forwarded and the body awaited) *)
